@@ -123,48 +123,54 @@ InvTweaked == FovPart =>
           InfiniteLaw(TweakedInfinitePerspective(pT, pA, pn, ep), FALSE, FALSE, pT, pA, pn, QSub(QOne, ep))
 
 \* ---- project / unProject / pickMatrix
+ProjPart == ix % 9 = 0                \* the project / unProject laws are evaluated on every ninth tuple
 Viewport == << pl, pb, QMul(QSub(pr, pl), QI(160)), QMul(QSub(pt, pb), QI(120)) >>
 Models == << MIdentity(4),
              Mat(4, 4, << QZero, QOne, QZero, QZero,  QMinusOne, QZero, QZero, QZero,  QZero, QZero, QOne, QZero,  QI(2), QI(-1), QI(3), QOne >>),
              Mat(4, 4, << QI(2), QZero, QOne, QZero,  QZero, QF(1, 2), QZero, QZero,  QMinusOne, QZero, QI(2), QZero,  QF(1, 2), QI(1), QI(-2), QOne >> ) >>
 Model == Models[(ix % 3) + 1]
 \* the clip cube (identity model and projection) goes to the viewport rectangle and depth [0,1]
-InvProjectCube == \A zo \in BOOLEAN : \A xlo, ylo, near \in BOOLEAN :
+InvProjectCube == ProjPart => \A zo \in BOOLEAN : \A xlo, ylo, near \in BOOLEAN :
     VEq(ProjectQ(<< PM1(xlo), PM1(ylo), IF near THEN ZNearOf(zo) ELSE QOne >>, MIdentity(4), MIdentity(4), Viewport, zo),
         << IF xlo THEN Viewport[1] ELSE QAdd(Viewport[1], Viewport[3]),
            IF ylo THEN Viewport[2] ELSE QAdd(Viewport[2], Viewport[4]),
            IF near THEN QZero ELSE QOne >>)
 \* a view-volume corner goes to a viewport corner with depth 0 / 1 under the matching convention; the centre of
 \* the near window goes to the viewport centre
-InvProjectVolume == \A v \in Variants : \A xlo, ylo, near \in BOOLEAN :
+InvProjectVolume == ProjPart => \A v \in Variants : \A xlo, ylo, near \in BOOLEAN :
     LET d == IF near THEN pn ELSE pf sc == QDiv(d, pn)
         eye == << QMul(IF xlo THEN pl ELSE pr, sc), QMul(IF ylo THEN pb ELSE pt, sc), EyeZ(d, v[1]) >>
     IN VEq(ProjectQ(eye, MIdentity(4), Frustum(pl, pr, pb, pt, pn, pf, v[1], v[2]), Viewport, v[2]),
            << IF xlo THEN Viewport[1] ELSE QAdd(Viewport[1], Viewport[3]),
               IF ylo THEN Viewport[2] ELSE QAdd(Viewport[2], Viewport[4]),
               IF near THEN QZero ELSE QOne >>)
-Points == { << QI(1), QI(2), QI(-3) >>, << QF(-1, 2), QF(3, 4), QI(5) >>, << QZero, QZero, QF(7, 2) >> }
-Wins == { << QAdd(Viewport[1], QI(3)), QAdd(Viewport[2], QF(5, 2)), QF(1, 4) >>, << Viewport[1], Viewport[2], QZero >>,
-          << QI(100), QI(-7), QOne >> }
+Points == { << QI(1), QI(2), QI(-3) >>, << QF(-1, 2), QF(3, 4), QI(5) >> }
+Wins == { << QAdd(Viewport[1], QI(3)), QAdd(Viewport[2], QF(5, 2)), QF(1, 4) >>, << QI(100), QI(-7), QOne >> }
 Projs(v) == << Frustum(pl, pr, pb, pt, pn, pf, v[1], v[2]), Ortho(pl, pr, pb, pt, pn, pf, v[1], v[2]),
                Perspective(pT, pA, pn, pf, v[1], v[2]), InfinitePerspective(pT, pA, pn, v[1], v[2]) >>
-\* mutually inverse (wherever the point has a non-zero clip w, resp. a finite pre-image)
-InvRoundTrip == \A v \in Variants : \A zo \in BOOLEAN : \A j \in 1..4 :
-    LET P == Projs(v)[j] IN
-    /\ ~QIsZero(Det4N(MMulN(P, Model)))
-    /\ QEq(Det4N(MMulN(P, Model)), MDet(MMul(P, Model)))                          \* the normalising algebra agrees with LinQ
-    /\ \A p \in Points : ~QIsZero(ClipOf(p, Model, P)[4]) =>
-            VEq(UnProjectQ(ProjectQ(p, Model, P, Viewport, zo), Model, P, Viewport, zo), p)
-    /\ \A w \in Wins : ~QIsZero(UnProjectHom(w, Model, P, Viewport, zo)[4]) =>
-            VEq(ProjectQ(UnProjectQ(w, Model, P, Viewport, zo), Model, P, Viewport, zo), w)
+\* mutually inverse (wherever the point has a non-zero clip w, resp. a finite pre-image); the depth convention of
+\* project/unProject is independent of the one the projection was built for
+InvRoundTrip == ProjPart => \A v \in Variants : \A j \in 1..4 :
+    LET P == Projs(v)[j]
+        PMm == MMulN(P, Model)
+        adj == Adj4N(PMm)
+        det == Det4N(PMm)
+        zo == IF j % 2 = 0 THEN v[2] ELSE ~v[2]
+    IN /\ ~QIsZero(det)
+       /\ (j = 1 => QEq(det, MDet(MMul(P, Model))))                                 \* the normalising algebra agrees with LinQ
+       /\ \A i \in 1..4 : VEq(MVecN(PMm, MCol(adj, i)), [r \in 1..4 |-> IF r = i THEN det ELSE QZero])   \* (P*M) * adj = det * I
+       /\ \A p \in Points : ~QIsZero(ClipOf(p, Model, P)[4]) =>
+               VEq(DeHom(UnProjectHomA(adj, ProjectQ(p, Model, P, Viewport, zo), Viewport, zo)), p)
+       /\ \A w \in Wins : LET o == UnProjectHomA(adj, w, Viewport, zo) IN
+               ~QIsZero(o[4]) => VEq(ProjectQ(DeHom(o), Model, P, Viewport, zo), w)
 \* the depth conventions differ: with the other convention the round trip still closes, but the images differ
-InvDepthConvention == \A p \in Points :
+InvDepthConvention == ProjPart => \A p \in Points :
     LET P == Frustum(pl, pr, pb, pt, pn, pf, FALSE, FALSE) IN
     ~QIsZero(ClipOf(p, Model, P)[4]) =>
         LET a == ProjectQ(p, Model, P, Viewport, TRUE) b == ProjectQ(p, Model, P, Viewport, FALSE)
         IN QEq(a[1], b[1]) /\ QEq(a[2], b[2]) /\ QEq(b[3], QAdd(QMul(a[3], QHalf), QHalf))
 \* pickMatrix: the NDC image of the pick rectangle (centre c, size delta, in window coordinates) becomes [-1,1]^2
-InvPick == \A c \in { << QAdd(Viewport[1], QI(5)), QAdd(Viewport[2], QI(7)) >>, << QI(-3), QF(9, 2) >> } :
+InvPick == ProjPart => \A c \in { << QAdd(Viewport[1], QI(5)), QAdd(Viewport[2], QI(7)) >>, << QI(-3), QF(9, 2) >> } :
            \A dl \in { << QI(4), QI(2) >>, << QF(1, 2), QI(40) >> } :
            \A xlo, ylo \in BOOLEAN : \A z \in {QMinusOne, QF(1, 3)} :
     LET wx == QAdd(c[1], QMul(PM1(xlo), QMul(dl[1], QHalf)))
